@@ -632,6 +632,8 @@ class Interp:
     def eq(self, a, b, node=None):
         if a is None and b is None:
             return True
+        if isinstance(a, OpaqueSeq) and isinstance(b, OpaqueSeq):
+            return a.seq == b.seq
         if isinstance(a, Char) or isinstance(b, Char):
             if isinstance(a, Char) and isinstance(b, Char):
                 return a.code == b.code
@@ -1020,6 +1022,8 @@ class Interp:
             n = self.p.fresh(hint + '_n', z3.IntSort())
             self.p.assume(n >= 0)
             return ArrList(self.p.fresh(hint + '_a', cur.arr.sort()), n, cur.elem)
+        if isinstance(cur, OpaqueSeq):
+            return OpaqueSeq(cur.kind, self.p.fresh(hint, cur.seq.sort()))
         if isinstance(cur, ArrStr):
             return cur  # strings are immutable
         if isinstance(cur, Char):
@@ -1092,6 +1096,21 @@ class Interp:
     def st_For(self, s):
         if self.spec:
             self.oos('loop in spec mode', s)
+        if isinstance(s.iter, ast.Tuple):
+            # a loop over a literal tuple is unrolled (no invariant needed); break / continue / else as in python
+            broke = False
+            for el in s.iter.elts:
+                self.assign(s.target, self.ev(el))
+                try:
+                    self.block(s.body)
+                except Cont:
+                    continue
+                except Brk:
+                    broke = True
+                    break
+            if not broke and s.orelse:
+                self.block(s.orelse)
+            return
         if s.orelse:
             self.oos('for/else', s)
         it = s.iter
@@ -1187,9 +1206,11 @@ class Interp:
             return
         fn = self.ev(call.func)
         args = [self.ev(a) for a in call.args]
-        kwargs = {k.arg: self.ev(k.value) for k in call.keywords}
+        kwargs = {('**' if k.arg is None else k.arg): self.ev(k.value) for k in call.keywords}
         target = fn.target if isinstance(fn, BoundMeth) else fn
-        from .contracts import Contract
+        from .contracts import Contract, VariantSet
+        if isinstance(target, VariantSet):
+            target = target.variants[0]  # all variants are contracts of the one function that is interpreted here
         if isinstance(target, Contract):
             # a context manager is always interpreted from its real source at the `with` site
             # (its contract, stated for an arbitrary body, is verified separately)
@@ -1304,6 +1325,12 @@ class Interp:
                 except Ret:
                     pass
                 return
+            if isinstance(obj.f.get(attr), OpaqueSeq) and not isinstance(v, OpaqueSeq):
+                # `self.options = []`: an empty python list stored into a field that holds a sequence of opaque things
+                if z3.is_expr(v) and S.is_seq(v) and z3.is_true(z3.simplify(z3.Length(v) == 0)):
+                    obj.f[attr] = OpaqueSeq(obj.f[attr].kind, z3.Empty(z3.SeqSort(z3.IntSort())))
+                    return
+                self.oos(f'store of a non-empty list into {obj.cls}.{attr}', node)
             if attr not in obj.f and self.w.registry.classes.get(obj.cls, {}).get('attrview'):
                 # attribute table view: obj.name = v  is a store into the table
                 k = z3.StringVal(attr)
